@@ -29,3 +29,9 @@ open CalmVerif.Props.C01
 #check @direct_adjacent_safe_meaning
 #print axioms token_codes_faithful
 #check @token_codes_faithful
+#print axioms separated_pairs_safe_pretty_partial
+#check @separated_pairs_safe_pretty_partial
+#print axioms no_unit_tuples
+#check @no_unit_tuples
+#print axioms pretty_relexes_partial
+#check @pretty_relexes_partial
